@@ -14,7 +14,10 @@ Decided:
          one codec / serializer / charset; quote() is total on every value unquote() can return: it has no escaping
          ``raise``, and each text -> bytes step is total on the class of text that reaches it (the serializer's output
          is 'ascii' unless ensure_ascii is switched off, then 'any str, unpaired surrogates included'; a strict
-         encode of the latter is a violation, a non-strict error handler or an enclosing handler discharges it);
+         encode of the latter is a violation, a non-strict error handler or an enclosing handler discharges it); the two
+         pipelines are inverse in shape: quote() is layout(encoder(text->bytes(dumps(v)))) of the value it is given, itself, and
+         nothing is cut out of the payload; unquote() returns loads(bytes->text(decoder(v))) as it is, loads gets no hook that
+         rebuilds values; UnquoteError is resolved in the module unquote() is written in;
   R16.c  MAC before use (dependency): cls.unquote and the _expires comparison are dominated by the
          safe_str_cmp(client_hash, mac.digest()) test; the MAC is never compared with == ; a non-empty value of the data reaches
          the returned cookie only along paths through the successful comparison; every return builds cls(<data>, secret_key, ..);
@@ -23,8 +26,11 @@ Decided:
          super with the same secret_key;
   R16.d  key plumbing: load_cookie gets self.secret_key / self.cookie_name; secret_key is the constructor
          argument or os.urandom; the cookie is provided under arg_name (= provides); save_cookie runs on the
-         next() result on every normal path; _expires is stamped only when absent and expiry is numeric, and what is stamped
-         is the sum of one clock reading and self.expiry (no term subtracted, none missing).
+         next() result on every normal path; _expires is stamped only when absent -- as the cookie says after the endpoint
+         ran: through a membership test or a lookup with a sentinel default -- and expiry is numeric, and what is stamped
+         is the sum of one clock reading and self.expiry (no term subtracted, none missing); JSONCookie.set_expires records
+         its argument under the key the dependency compares with the clock, on every path it takes for a time -- evaluated over
+         the kinds of argument None / 0 / non-zero number / NOW marker: a guard on the truth value excludes 0, a legal time.
   R16.e  per-request state: no write of request() (attribute / item store, delete, mutating method call, global
          assignment; in the method itself or in a method of the class it calls) goes to an object that outlives the call --
          the middleware object, its class, a module-level container, a mutable default, or anything reached through
@@ -42,7 +48,12 @@ Decided:
          one, and nothing is written to it there; request() provides to the endpoint and saves the very object load_cookie
          returned (no re-binding on the way), writes nothing into it but the expiry stamp, and that only after the endpoint ran;
          neither the stamp nor the expires / session_expires handed to save_cookie (which the dependency signs into the cookie as
-         _expires) derives from the request other than through the verified cookie.
+         _expires) derives from the request other than through the verified cookie; the expiry handed to save_cookie is the
+         cookie's own _expires entry, read after the endpoint ran (the dependency overwrites the entry with what it is given),
+         or anything at all only where the cookie has none -- followed through conversions and accessor methods of the cookie
+         class -- and, evaluated over a finite domain of kinds of time value (epoch number / aware datetime / naive datetime
+         holding UTC / naive datetime holding local time), is of a kind the dependency reads as the instant that was meant (how it
+         reads a naive datetime is taken from the source of its _date_to_unix).
   R16.h  what the application stored is written back: should_save (what save_cookie consults), looked up along the MRO of
          JSONCookie, is the dependency's (= modified) or an override that narrows it only by comparing the contents with a
          snapshot that shares no mutable object with the live cookie (deepcopy / a serialised form; a shallow copy or an alias
@@ -50,7 +61,8 @@ Decided:
          constructor override hands data / secret_key / new to the dependency unchanged on every path and stores nothing into
          the cookie; any other member of the dependency's load / save machinery that the class or a mixin replaces is an
          analysis gap.
-Declined: cryptographic strength, JSON round-trip fidelity, clock behaviour around the expiry instant.
+Declined: cryptographic strength, what the serializer itself does to a value (tuples, non-string keys, NaN), clock behaviour
+around the expiry instant.
 
 Constructs are recognised by role, not by spelling: values are followed through single-assignment locals and
 (CFG) reaching definitions, conditions are taken from the path conditions in either polarity, constants are
@@ -92,30 +104,68 @@ class _Ctx(object):
             raise AnalysisError('cookie call path changed: super().unserialize x%d, load_cookie x%d'
                                 % (len(self.sup_calls), len(self.load_calls)))
 
-    def fold(self, e):
-        return self.repo.try_fold(e, self.ck, _NOFOLD) if e is not None else _NOFOLD
+    def home(self, node, default=None):
+        """The module whose tree holds ``node``.  The anchors need not live in one module (a class moved into a private
+        module and imported back is analysed where it is defined now): free names are resolved, constants folded and
+        statements looked up in the module the code is written in, not in the module it is reached from."""
+        if node is not None:
+            for m in (self.ck, self.ju.mod, self.rq.mod, self.dep) + tuple(getattr(self.repo, '_mods', {}).values()):
+                if node in m.parents:
+                    return m
+        return default or self.ck
+
+    def stmt(self, node):
+        return node if isinstance(node, ast.stmt) else stmt_of(self.home(node), node)
+
+    def fold(self, e, mod=None):
+        return self.repo.try_fold(e, mod or self.home(e), _NOFOLD) if e is not None else _NOFOLD
+
+
+class _Located(object):
+    """The report as the rule groups see it: the module an obligation is located in is the one that holds its node."""
+
+    def __init__(self, rep, cx):
+        self._rep, self._cx = rep, cx
+
+    def __getattr__(self, name):
+        return getattr(self._rep, name)
+
+    def check(self, rule, key, ok, detail, mod=None, node=None):
+        return self._rep.check(rule, key, ok, detail, self._cx.home(node, mod) if mod is not None else None, node)
+
+    def ok(self, rule, key, detail, mod=None, node=None):
+        return self.check(rule, key, True, detail, mod, node)
+
+    def fail(self, rule, key, detail, mod=None, node=None):
+        return self.check(rule, key, False, detail, mod, node)
 
 
 def run(rep):
     rep.decide('R16.a malformed cookies cannot raise out of the load; R16.b unquote total, quote total on what unquote returns, '
-               'codec agreement; R16.c MAC dominates use; R16.d key plumbing, provide-under-name, save on every path; '
+               'codec agreement, the two payload pipelines are inverse in shape; R16.c MAC dominates use; R16.d key plumbing, '
+               'provide-under-name, save on every path, stamp only when the cookie (consulted after the endpoint) has no expiry, '
+               'set_expires records the expiry where the dependency looks for it; '
                'R16.e nothing request() learns from one request is written into an object shared with the next; '
                'R16.f the random default key is drawn per constructed middleware; R16.g one cookie object flows unchanged from '
-               'verification to the endpoint to save_cookie, nothing of the request enters it; R16.h a modified cookie is written back '
+               'verification to the endpoint to save_cookie, nothing of the request enters it, the expiry save_cookie signs is the cookie\'s own; '
+               'R16.h a modified cookie is written back '
                '(should_save / constructor overrides)')
-    rep.decline('cryptographic strength; JSON round-trip fidelity; clock behaviour at the expiry instant')
+    rep.decline('cryptographic strength; what the serializer itself does to a value (JSON round-trip of tuples, non-string keys, NaN); '
+                'clock behaviour at the expiry instant')
     rep.assume('binascii.Error and UnicodeDecodeError are ValueError subclasses (CPython)')
     rep.assume('json.loads returns str values with unpaired surrogates for escapes such as "\\ud83d"; json.dumps emits ASCII only '
                'unless ensure_ascii is false; str.encode with the strict handler raises on unpaired surrogates for every codec')
     rep.assume('secure-cookie 0.1.0 as parsed from site-packages/secure_cookie/cookie.py')
+    rep.assume('werkzeug\'s Response.set_cookie reads a naive datetime ``expires`` the way the dependency\'s _date_to_unix does (as UTC)')
     try:
         cx = _Ctx(rep)
     except AnalysisError:
         raise
     except Exception as e:
         raise AnalysisError('cookie module: anchors not recognised (%s: %s)' % (type(e).__name__, e))
+    located = _Located(rep, cx)
     for group in (rule_a, rule_b, rule_c, rule_d, rule_e, rule_g, rule_h):
-        rep.guard(_no_crash(group), rep, cx)
+        rep.guard(_no_crash(group), located, cx)
 
 
 def _no_crash(fn):
@@ -209,7 +259,7 @@ def rule_a(rep, cx):
     # decoding primitives clastic itself applies to what the client sent (the string handed to unserialize; in request(), anything
     # read from the request other than through the loaded cookie): each one under a handler of this function that does not re-raise
     from ..effects import Flow
-    lst = stmt_of(ck, load_call)
+    lst = cx.stmt(load_call)
     cvars = set(t.id for t in getattr(lst, 'targets', []) if isinstance(t, ast.Name))
     reqs = set(n.id for n in ast.walk(argn(load_call, 'request', 0) or ast.Constant(value=None)) if isinstance(n, ast.Name)) - {'self'}
     for fi, sources, boundary, skip in ((ju, set(ju.params()[1:2]), set(), []), (rq, reqs, cvars, [lst])):
@@ -224,7 +274,7 @@ def rule_a(rep, cx):
                 prim, operands = n.value, [n.value.func.value]
             if prim is None:
                 continue
-            at = stmt_of(ck, prim)
+            at = cx.stmt(prim)
             if not any(_derives(fl, o, at, sources, boundary, skip) for o in operands):
                 continue
             h = protected_by(fi, prim, 'ValueError')
@@ -324,14 +374,14 @@ def rule_b(rep, cx):
     ck, dep, repo = cx.ck, cx.dep, cx.repo
     rep.rule('R16.b', 'every call in JSONCookie.unquote is under except Exception -> UnquoteError')
     uq = ck.func('JSONCookie.unquote')
-    calls = [c for c in walk_body(uq.node) if isinstance(c, ast.Call) and not (isinstance(stmt_of(ck, c), ast.Raise))]
+    calls = [c for c in walk_body(uq.node) if isinstance(c, ast.Call) and not (isinstance(cx.stmt(c), ast.Raise))]
     n = 0
     for c in calls:
         if any(c is x for h in _all_handlers(uq) for x in ast.walk(h)):
             continue
         n += 1
         h = protected_by(uq, c, 'Exception')
-        ok = h is not None and all(raise_type(r) == 'UnquoteError' for r in ast.walk(h) if isinstance(r, ast.Raise)) \
+        ok = h is not None and all(_names_unquote_error(cx, uq, r) for r in ast.walk(h) if isinstance(r, ast.Raise)) \
             and handler_reraises_always(uq, h)
         rep.check('R16.b', fkey(uq, c), ok, 'failure of %s becomes UnquoteError' % short(c, 40) if ok else
                   '%s can raise something other than UnquoteError out of unquote (the dependency only expects UnquoteError)'
@@ -363,10 +413,174 @@ def rule_b(rep, cx):
                    if isinstance(c, ast.Call) and call_tail(c) in ('encode', 'decode') and isinstance(c.func, ast.Attribute))
     rep.check('R16.b', '%s::JSONCookie quote/unquote charset' % COOKIE, len(charsets) == 1, 'text is encoded and decoded with the same charset %s' % sorted(charsets) if len(charsets) == 1 else
               'quote()/unquote() use different charsets: %s' % sorted(map(str, charsets)), ck, qf.node)
-    k, m, ue = repo.resolve(ck, 'UnquoteError')
-    rep.check('R16.b', '%s::UnquoteError' % COOKIE, k == 'class' and m is dep, 'UnquoteError is the dependency\'s own class' if k == 'class' and m is dep else
-              'UnquoteError is not the class secure_cookie catches', ck)
+    # the class the handlers of unquote() raise under that name is the one the dependency's loop catches: the name is resolved
+    # in the module unquote() is written in (the class may have moved; the import goes with it)
+    raised = [r for h in _all_handlers(uq) for r in ast.walk(h) if isinstance(r, ast.Raise) and _names_unquote_error(cx, uq, r)]
+    if dep.classes.get('UnquoteError') is None:
+        raise AnalysisError('secure_cookie.cookie: class UnquoteError not found (model out of date)')
+    ok = bool(raised) and all(_raised_class(cx, uq, r) is dep.classes['UnquoteError'] for r in raised)
+    rep.check('R16.b', '%s::UnquoteError' % COOKIE, ok, 'UnquoteError is the dependency\'s own class' if ok else
+              'UnquoteError is not the class secure_cookie catches', uq.mod, raised[0] if raised else uq.node)
     _quote_total(rep, cx, qf, jc)
+    _codec_pipeline(rep, cx, qf, uq, jc, PAIRS)
+
+
+# "exactly the data the application stored": as far as the shape of the two functions goes, unquote(quote(v)) is v --
+#   quote   = layout . encoder . text->bytes . dumps   applied to the value it is given, itself;
+#   unquote = loads . bytes->text . decoder            applied to the value it is given, itself, and returned as it is;
+# the serializer's loads gets no hook that rebuilds values.  (What the serializer itself does to a value -- tuples, keys
+# that are not strings -- stays declined.)  A step that is not one of these is an analysis gap, except the ones that are
+# known to lose data: a slice of the payload (truncation), a transformed value, a transformed result, a loads hook.
+LOADS_HOOKS = ('object_hook', 'object_pairs_hook', 'parse_float', 'parse_int', 'parse_constant', 'cls')
+BLANK_BYTES = (b'', b'\n', b'\r', b'\r\n', b' ', '', '\n', '\r', '\r\n', ' ')
+
+
+class _Lossy(Exception):
+    def __init__(self, why, node):
+        Exception.__init__(self, why)
+        self.why, self.node = why, node
+
+
+def _codec_pipeline(rep, cx, qf, uq, jc, pairs):
+    from ..effects import Flow
+    for fi, walk, good in ((qf, _quote_steps, 'quote() is layout(encoder(text -> bytes(dumps(value)))) of the value it is given'),
+                           (uq, _unquote_steps, 'unquote() returns loads(bytes -> text(decoder(value))) of the value it is given, as it is')):
+        ps = [p_ for p_ in fi.params() if p_ not in ('cls', 'self')]
+        rets = [r for r in returns_of(fi) if r.value is not None]
+        if len(ps) != 1 or not rets:
+            raise AnalysisError('%s: parameter / return value not found' % fi.qualname)
+        fl = Flow(fi)
+        lossy = []
+        for r in rets:
+            try:
+                walk(cx, fl, fi, jc, pairs, ps[0], r.value, r, 'result' if fi is uq else 'layout', 0)
+            except _Lossy as e:
+                lossy.append(e)
+        rep.check('R16.b', fkey(fi, 'pipeline'), not lossy, good if not lossy else lossy[0].why, fi.mod, lossy[0].node if lossy else fi.node)
+
+
+def _leaves(fl, fi, e, at, depth):
+    if depth > 24:
+        raise AnalysisError('%s: the payload pipeline is too deep to follow' % fi.qualname)
+    out = []
+    for lf in fl.leaves(e, at):
+        if lf.opaque:
+            raise AnalysisError('%s: %s is bound in a way that is not followed' % (fi.qualname, short(e, 30)))
+        out.append((lf.value, lf.stmt))
+    return out
+
+
+def _is_param(fl, v, st, param):
+    """A leaf that is the parameter's name stands for the value on entry (every binding in the function was followed to its value)."""
+    return isinstance(v, ast.Name) and v.id == param
+
+
+def _plain_call(v):
+    return isinstance(v, ast.Call) and not any(isinstance(a, ast.Starred) for a in v.args) and not any(k.arg is None for k in v.keywords)
+
+
+def _quote_steps(cx, fl, fi, jc, pairs, param, e, at, stage, depth):
+    for v, st in _leaves(fl, fi, e, at, depth):
+        rec = lambda x, stage_: _quote_steps(cx, fl, fi, jc, pairs, param, x, st, stage_, depth + 1)
+        if isinstance(v, ast.Subscript) and stage != 'value':
+            raise _Lossy('quote() cuts the payload (%s): a value longer than that no longer decodes -- the dependency discards the whole cookie as '
+                         'unquotable and the next request presents an empty cookie instead of what the application stored' % short(v, 40), v)
+        if stage == 'value':
+            if not _is_param(fl, v, st, param):
+                raise _Lossy('quote() serializes %s, not the value it is given: what the endpoint reads back on the next request is not what it stored'
+                             % short(v, 40), v)
+            continue
+        call = v if _plain_call(v) else None
+        meth = call.func.attr if call is not None and isinstance(call.func, ast.Attribute) else None
+        if stage == 'layout':
+            if meth in STR_TO_STR and not call.keywords and (not call.args or (len(call.args) == 1 and cx.fold(call.args[0]) in BLANK_BYTES)):
+                rec(call.func.value, 'layout')
+            elif meth == 'join' and len(call.args) == 1 and not call.keywords and cx.fold(call.func.value) in (b'', ''):
+                inner = [x for x, _ in _leaves(fl, fi, call.args[0], st, depth + 1)]
+                if not all(_plain_call(x) and isinstance(x.func, ast.Attribute) and x.func.attr in ('splitlines', 'split') and not x.args and not x.keywords
+                           for x in inner):
+                    raise AnalysisError('%s: the pieces joined in %s are not followed' % (fi.qualname, short(v, 40)))
+                for x in inner:
+                    rec(x.func.value, 'layout')
+            elif meth == 'replace' and len(call.args) == 2 and not call.keywords and cx.fold(call.args[0]) in BLANK_BYTES[1:] and cx.fold(call.args[1]) in (b'', ''):
+                rec(call.func.value, 'layout')
+            elif call is not None and call_tail(call) in pairs and call.args:
+                rec(call.args[0], 'bytes')
+            else:
+                raise AnalysisError('%s: the step %s between the encoder and the returned payload is not followed' % (fi.qualname, short(v, 40)))
+        elif stage == 'bytes':
+            enc = _encode_step(v)
+            if enc is None:
+                raise AnalysisError('%s: what is handed to the encoder (%s) is not a text -> bytes step that is followed' % (fi.qualname, short(v, 40)))
+            rec(enc[0], 'text')
+        elif stage == 'text':
+            if meth in STR_TO_STR and not call.args and not call.keywords:
+                rec(call.func.value, 'text')
+            elif isinstance(v, ast.Call) and call_tail(v) == 'dumps' and argn(v, 'obj', 0) is not None:
+                rec(argn(v, 'obj', 0), 'value')         # (its options: see the totality obligation)
+            else:
+                raise AnalysisError('%s: the text that is encoded (%s) is not the output of the serializer' % (fi.qualname, short(v, 40)))
+
+
+def _unquote_steps(cx, fl, fi, jc, pairs, param, e, at, stage, depth):
+    for v, st in _leaves(fl, fi, e, at, depth):
+        rec = lambda x, stage_: _unquote_steps(cx, fl, fi, jc, pairs, param, x, st, stage_, depth + 1)
+        call = v if _plain_call(v) else None
+        meth = call.func.attr if call is not None and isinstance(call.func, ast.Attribute) else None
+        if stage == 'result':
+            if not (isinstance(v, ast.Call) and call_tail(v) == 'loads'):
+                raise _Lossy('unquote() returns %s, not the value the serializer decoded: the endpoint does not get back what it stored' % short(v, 40), v)
+            call = v
+            if argn(call, 's', 0) is None:
+                raise AnalysisError('%s: the arguments of %s are not followed' % (fi.qualname, short(v, 40)))
+            hooks = [k.arg for k in call.keywords if k.arg in LOADS_HOOKS]
+            for k in call.keywords:
+                if k.arg is None:
+                    opts = cx.fold(k.value)
+                    if not isinstance(opts, dict):
+                        raise AnalysisError('%s: the options %s of the serializer are not followed' % (fi.qualname, short(k.value, 40)))
+                    hooks += [x for x in opts if x in LOADS_HOOKS]
+            if hooks:
+                raise _Lossy('the serializer\'s loads is given %s: the values handed to the endpoint are rebuilt by the hook and are not the ones it stored '
+                             '(quote() has no counterpart)' % ', '.join(hooks), call)
+            rec(argn(call, 's', 0), 'text')
+        elif stage == 'text':
+            if isinstance(v, ast.Subscript):
+                raise _Lossy('unquote() decodes only a part of the payload (%s)' % short(v, 40), v)
+            if meth in STR_TO_STR and not call.args and not call.keywords:
+                rec(call.func.value, 'text')
+            elif meth == 'decode' and norm(call.func.value) not in ('codecs', 'bytes', 'base64', 'binascii'):
+                rec(call.func.value, 'bytes')
+            elif call is not None and norm(call.func) in ('str', 'codecs.decode', 'bytes.decode') and call.args:
+                rec(call.args[0], 'bytes')
+            elif call is not None and call_tail(call) in pairs.values() and call.args:
+                rec(call.args[0], 'value')         # the serializer is given bytes
+            else:
+                raise AnalysisError('%s: the text handed to the serializer (%s) is not followed' % (fi.qualname, short(v, 40)))
+        elif stage == 'bytes':
+            if isinstance(v, ast.Subscript):
+                raise _Lossy('unquote() decodes only a part of the payload (%s)' % short(v, 40), v)
+            if call is not None and call_tail(call) in pairs.values() and call.args:
+                rec(call.args[0], 'value')
+            else:
+                raise AnalysisError('%s: the bytes that are decoded (%s) are not the output of the decoder' % (fi.qualname, short(v, 40)))
+        elif stage == 'value':
+            if not _is_param(fl, v, st, param):
+                raise _Lossy('unquote() decodes %s, not the value it is given' % short(v, 40), v)
+
+
+def _raised_class(cx, fi, r):
+    """What ``raise X`` / ``raise X(..)`` names, resolved in the module the function is written in: ClassInfo or a text."""
+    if r.exc is None:
+        return None
+    return cx.repo.resolve_class(fi.mod, r.exc.func if isinstance(r.exc, ast.Call) else r.exc)
+
+
+def _names_unquote_error(cx, fi, r):
+    """The raise statement names the exception the dependency's MAC-then-unquote loop expects: by that name, or under
+    whatever name the module imports the dependency's class (whether it IS that class is an obligation of its own)."""
+    t = raise_type(r)
+    return t is not None and (t.rpartition('.')[2] == 'UnquoteError' or _raised_class(cx, fi, r) is cx.dep.classes.get('UnquoteError'))
 
 
 # quote() is total on everything unquote() can hand to the application: the text the serializer produces is put into
@@ -394,7 +608,7 @@ def _quote_total(rep, cx, qf, jc):
         if enc is None:
             continue
         text, a_cs, a_err = enc
-        at = stmt_of(ck, c)
+        at = cx.stmt(c)
         cls_ = _text_class(cx, fl, qf, jc, text, at)
         if cls_ is None:
             continue        # not serializer output (the serializer / codec obligations speak about that)
@@ -514,8 +728,10 @@ def _opaque_calls(cx, ci, fi):
         f = c.func
         if isinstance(f, ast.Attribute) and norm(f.value) in ('cls', 'self', ci.name) and _own_method(cx, ci, f.attr):
             out.append(norm(f))
-        elif isinstance(f, ast.Name) and cx.repo.resolve(cx.ck, f.id)[0] == 'func' and cx.repo.resolve(cx.ck, f.id)[1] is cx.ck:
-            out.append(f.id)
+        elif isinstance(f, ast.Name):
+            kind, m, _ = cx.repo.resolve(fi.mod, f.id)
+            if kind == 'func' and m is not None and not m.external:
+                out.append(f.id)
     return out
 
 
@@ -737,7 +953,7 @@ def rule_d(rep, cx):
     kf = _KeyFlow(cx, mw, init)
     atoms = []
     for s in sk:
-        atoms += kf.atoms(ck, init, s.value, None, PER_CALL, ())
+        atoms += kf.atoms(init.mod, init, s.value, None, PER_CALL, ())
     # every value self.secret_key may get is the constructor argument or a random key (os.urandom, written in place or
     # reached through methods / functions / lambdas / partials / class attributes / module-level names)
     randoms = []
@@ -773,7 +989,7 @@ def rule_d(rep, cx):
     pv = [s for s in stmts_of(init.node) if isinstance(s, ast.Assign) and any(norm(t) == 'self.provides' for t in s.targets)]
     ok = len(pv) == 1 and _only_arg_name(init, _follow(init, pv[0].value)) and not assigned_value(init.node, 'arg_name')
     rep.check('R16.d', fkey(init, 'self.provides'), ok, 'provides is exactly (arg_name,)' if ok else 'provides is not (arg_name,)', ck, init.node)
-    lst = stmt_of(ck, lcall)
+    lst = cx.stmt(lcall)
     cvar = lst.targets[0].id if isinstance(lst, ast.Assign) and lst.value is lcall and len(lst.targets) == 1 \
         and isinstance(lst.targets[0], ast.Name) else None
     if cvar is None:
@@ -791,10 +1007,10 @@ def rule_d(rep, cx):
     cfg = cfg_of(rq)
     nd = next_derived(rq)
     saves = [c for c in walk_body(rq.node) if isinstance(c, ast.Call) and call_tail(c) == 'save_cookie']
-    nst = stmt_of(ck, ncalls[0]) if ncalls else None
+    nst = cx.stmt(ncalls[0]) if ncalls else None
     ok = bool(saves) and nst is not None and \
         all(norm(c.func.value) == cvar and norm(argn(c, 'response', 0)) in nd for c in saves) and \
-        cfg.must_pass(cfg.nodes_of_all([stmt_of(ck, c) for c in saves]), cfg.nodes_of(nst), cfg.exit, normal_only=True)
+        cfg.must_pass(cfg.nodes_of_all([cx.stmt(c) for c in saves]), cfg.nodes_of(nst), cfg.exit, normal_only=True)
     rep.check('R16.d', fkey(rq, 'save_cookie'), ok, 'cookie.save_cookie(<next() result>) runs on every normal path' if ok else
               'save_cookie on the next() result can be skipped', ck, saves[0] if saves else rq.node)
     ok = all(isinstance(r.value, ast.Name) and r.value.id in nd for r in returns_of(rq)) and returns_of(rq)
@@ -803,19 +1019,34 @@ def rule_d(rep, cx):
         # ... and the names still hold it where they are used: the response the cookie is saved on is the one returned
         from ..effects import Flow
         fl = Flow(rq)
-        uses = [(argn(c, 'response', 0), stmt_of(ck, c)) for c in saves] + [(r.value, r) for r in returns_of(rq)]
+        uses = [(argn(c, 'response', 0), cx.stmt(c)) for c in saves] + [(r.value, r) for r in returns_of(rq)]
         stale = [(e, at) for e, at in uses if not (isinstance(e, ast.Name) and _holds_next_result(fl, e.id, at, nd, 0))]
         rep.check('R16.d', fkey(rq, 'one response'), not stale, 'the response the cookie is saved on and the response returned are the next() result' if not stale else
                   '%s no longer holds the next() result at %s (re-bound in between): the Set-Cookie header is put on a response that is not the one returned'
                   % (norm(stale[0][0]), short(stale[0][1], 40)), ck, stale[0][1] if stale else rq.node)
+    from ..effects import Flow as _Flow
+    sfl = _Flow(rq)
+    cnames = set(k for k in sfl.aliases(cvar) if '.' not in k)
     for s, absent_implied in _stamps(cx, rq, cvar):
         cs = conds(rq, s)
         excluded = _excluded_expiry(cx, rq, cs)
         numeric = all(any(_same_const(v, x) for x in excluded) for v in _markers(cx))
-        absent = absent_implied or any(_absent_cond(cx, t, p, cvar) for t, p in cs)
+        # where the cookie was consulted for each path condition that says "no _expires entry"
+        lookups = [x for x in (_absent_cond(cx, rq, sfl, t, p, cnames) for t, p in cs) if x is not None]
+        absent = absent_implied or bool(lookups)
         ok = numeric and absent
         rep.check('R16.d', fkey(rq, '_expires stamp'), ok, 'expiry is stamped only when absent and expiry is numeric' if ok else
                   '_expires is stamped unconditionally / for non-numeric expiry: %s' % '; '.join(cond_texts(cs)), ck, s)
+        if ok and not absent_implied:
+            # ... and "absent" is what the cookie says when it is stamped: between consulting the cookie and the stamp neither the
+            # endpoint runs nor anything else writes to the cookie (a test evaluated before next() knows nothing of a set_expires() there)
+            changed = [_changed_since(cx, rq, cnames, sts, s) for sts in lookups]
+            current = any(c is None for c in changed)
+            rep.check('R16.d', fkey(rq, '_expires stamp: absence is current'), current,
+                      'the cookie is consulted for _expires after the endpoint ran, nothing changes it before the stamp' if current else
+                      'whether _expires is absent is decided before %s runs, which can change the cookie: an expiry set there (the endpoint\'s '
+                      'cookie.set_expires(..)) is overwritten by the stamp -- the application\'s value no longer overrides the configured one'
+                      % short(changed[0], 50), ck, s)
     ok = bool(saves) and all(_saved_under(cx, rq, c) == 'self.cookie_name' for c in saves)
     rep.check('R16.d', fkey(rq, 'save key'), ok, 'cookie is saved under self.cookie_name' if ok else 'cookie is not saved under self.cookie_name', ck, rq.node)
     for s, _ in _stamps(cx, rq, cvar):
@@ -832,7 +1063,214 @@ def rule_d(rep, cx):
              'no clock term: a number of seconds is stamped as an absolute time (long past: the cookie is discarded on every load)' if 'clock' not in kinds else
              'no expiry term: the cookie expires the moment it is issued' if 'expiry' not in kinds else 'clock / expiry counted more than once')
         rep.check('R16.d', fkey(rq, '_expires stamp value'), ok, why if ok else 'the stamped expiry %s is not "now + self.expiry": %s' % (short(v, 50), why), ck, s)
+    _set_expires(rep, cx)
     rep.floor('R16.d', 9)
+
+
+def _set_expires(rep, cx):
+    """The application's side of the expiry: JSONCookie.set_expires(t) is how an endpoint ends or limits a session, and the stamp
+    and save_cookie defer to what it leaves in the cookie.  For every *time* it can be given -- the NOW marker, zero ("expired at
+    the epoch"), any other number -- each normal path records an expiry under the key the dependency's unserialize compares with
+    the clock, unconditionally (an entry that is there already is replaced, and is not removed again), and what it records is its
+    argument on some path (a constant stands in for the NOW marker only).  The function is evaluated over a finite domain of
+    *kinds* of argument (None / 0 / a non-zero number / the marker): a guard on the truth value of the argument excludes 0, a
+    legal time, along with None; what it does for None (withdraw the expiry, store it, refuse) is not judged."""
+    from ..effects import Flow
+    dep_keys = set(n.value for c in walk_body(cx.un.node) if isinstance(c, ast.Compare) and any(isinstance(o, (ast.Gt, ast.Lt, ast.GtE, ast.LtE)) for o in c.ops)
+                   for x in ast.walk(c) if isinstance(x, ast.Subscript) for n in ast.walk(x.slice) if isinstance(n, ast.Constant) and isinstance(n.value, str))
+    if EXPIRES not in dep_keys:
+        raise AnalysisError('dependency unserialize: the key compared with the clock is %s, not %r (model out of date)' % (sorted(dep_keys), EXPIRES))
+    se = cx.ck.func('JSONCookie.set_expires')
+    ps = [p_ for p_ in se.params() if p_ != 'self']
+    if 'self' not in se.params() or len(ps) != 1:
+        raise AnalysisError('JSONCookie.set_expires: signature (self, <time>) not found')
+    stores = [st for st, only_if_absent in _stamps(cx, se, 'self') if not only_if_absent]
+    lost = _unrecorded_times(cx, se, ps[0], stores) if stores else []
+    fl = Flow(se)
+    given = False
+    for st in stores:
+        v = _stamp_value(cx, st)
+        if v is None:
+            raise AnalysisError('JSONCookie.set_expires: the value stored by %s is not followed' % short(st, 40))
+        given = given or any(_is_param(fl, lf.value, lf.stmt, ps[0]) for lf in fl.leaves(v, st) if lf.stmt is not None)
+    ok = bool(stores) and not lost and given
+    rep.check('R16.d', fkey(se, 'records the expiry'), ok,
+              'set_expires() stores the time it is given (the marker, 0 or any other number) under %r, the key the dependency compares with '
+              'the clock, on every path' % EXPIRES if ok else
+              ('set_expires() %s: the expiry an endpoint sets (set_expires(NOW) / set_expires(0) to end a session) is not in the signed data, the cookie '
+               'stays valid and is presented again' % ('never stores anything under %r, the key the dependency compares with the clock' % EXPIRES if not stores else
+                                                       'given %s can return without an %r entry of its own%s' % (' / '.join(k for k, _ in lost), EXPIRES,
+                                                                                                               _guard_text(lost)) if lost else
+                                                       'does not store the time it is given')), se.mod, stores[0] if stores else se.node)
+
+
+ARG_NONE, ARG_ZERO, ARG_NUM, ARG_MARK, ARG_OTHER = 'None', '0', 'a non-zero number', 'the NOW marker', 'some other value'
+TIME_ARGS = (ARG_ZERO, ARG_NUM, ARG_MARK)
+REMOVERS = ('pop', 'clear', 'popitem')
+
+
+def _guard_text(lost):
+    """The last test on the way to the exit without a stored entry; for 0, what is wrong with testing the truth value of a time."""
+    for kind, path in lost:
+        if path:
+            t, pol = path[-1]
+
+            def truthiness(x):
+                return isinstance(x, ast.Name) or (isinstance(x, ast.UnaryOp) and isinstance(x.op, ast.Not) and truthiness(x.operand)) or \
+                    (isinstance(x, ast.BoolOp) and any(truthiness(y) for y in x.values))
+            return ' (after: %s%s%s)' % ('' if pol else 'not ', short(t, 40),
+                                         ' -- the truth value of a time is false for 0, "expired at the epoch", a legal time: "is None" is the test for "no time given"'
+                                         if kind == ARG_ZERO and truthiness(t) else '')
+    return ''
+
+
+def _kind_of_const(cx, v):
+    if v is None:
+        return ARG_NONE
+    if isinstance(v, (int, float)) and not isinstance(v, bool):
+        return ARG_ZERO if v == 0 else ARG_NUM
+    try:
+        if v == cx.fold(ast.Name(id='NOW', ctx=ast.Load())):
+            return ARG_MARK
+    except Exception:
+        pass
+    return ARG_OTHER
+
+
+def _truth3(cx, t, param, kind):
+    """Three-valued outcome of test ``t`` when the local ``param`` holds a value of ``kind``: True / False / None (not decided).
+    Only the *kind* is known, never the number: ``x > 5`` is undecided for a non-zero number, decided for 0."""
+    if isinstance(t, ast.UnaryOp) and isinstance(t.op, ast.Not):
+        r = _truth3(cx, t.operand, param, kind)
+        return None if r is None else not r
+    if isinstance(t, ast.BoolOp):
+        rs = [_truth3(cx, x, param, kind) for x in t.values]
+        if isinstance(t.op, ast.And):
+            return False if False in rs else None if None in rs else True
+        return True if True in rs else None if None in rs else False
+    if isinstance(t, ast.Name) and t.id == param:
+        return {ARG_NONE: False, ARG_ZERO: False, ARG_NUM: True, ARG_MARK: bool(cx.fold(ast.Name(id='NOW', ctx=ast.Load())))}.get(kind)
+    if isinstance(t, ast.Call) and isinstance(t.func, ast.Name) and t.func.id == 'isinstance' and len(t.args) == 2 and norm(t.args[0]) == param:
+        names = set(norm(x).rpartition('.')[2] for x in (t.args[1].elts if isinstance(t.args[1], ast.Tuple) else [t.args[1]]))
+        if names <= {'int', 'float', 'Number', 'Real', 'Integral', 'str', 'bytes', 'type(None)', 'NoneType'} and kind != ARG_OTHER:
+            numeric = bool(names & {'int', 'float', 'Number', 'Real', 'Integral'})
+            return {ARG_NONE: bool(names & {'type(None)', 'NoneType'}), ARG_ZERO: numeric, ARG_NUM: numeric, ARG_MARK: 'str' in names}[kind]
+        return None
+    if isinstance(t, ast.Compare) and len(t.ops) == 1:
+        op, l, r = t.ops[0], t.left, t.comparators[0]
+        if norm(r) == param and norm(l) != param:
+            flip = {ast.Lt: ast.Gt, ast.Gt: ast.Lt, ast.LtE: ast.GtE, ast.GtE: ast.LtE}
+            l, r, op = r, l, flip.get(type(op), type(op))()
+        if norm(l) != param or kind == ARG_OTHER:
+            return None
+        c = cx.fold(r)
+        if c is _NOFOLD:
+            return None
+        if isinstance(op, (ast.In, ast.NotIn)):
+            if not isinstance(c, (tuple, list, set, frozenset)):
+                return None
+            rs = [_eq3(cx, kind, x) for x in c]
+            res = True if True in rs else None if None in rs else False
+            return res if isinstance(op, ast.In) or res is None else not res
+        if isinstance(op, (ast.Is, ast.IsNot)):
+            res = (kind == ARG_NONE) if c is None else None
+            return res if isinstance(op, ast.Is) or res is None else not res
+        if isinstance(op, (ast.Eq, ast.NotEq)):
+            res = _eq3(cx, kind, c)
+            return res if isinstance(op, ast.Eq) or res is None else not res
+        if isinstance(c, (int, float)) and not isinstance(c, bool) and kind == ARG_ZERO:
+            return {ast.Lt: 0 < c, ast.LtE: 0 <= c, ast.Gt: 0 > c, ast.GtE: 0 >= c}.get(type(op))
+    return None
+
+
+def _eq3(cx, kind, c):
+    """``x == c`` for a value x of the given kind and the constant c."""
+    ck_ = _kind_of_const(cx, c)
+    if kind in (ARG_NONE, ARG_ZERO, ARG_MARK):
+        return ck_ == kind
+    if kind == ARG_NUM:
+        return None if ck_ == ARG_NUM else False
+    return None
+
+
+def _unrecorded_times(cx, fi, param, stores):
+    """[(kind of argument, [guards taken])] for the times set_expires can be given and return -- on some normal path -- without
+    an expiry entry stored by that call still in place.  Abstract evaluation over the CFG: a state is (kind the argument had on
+    entry, kind the local holds now, is the entry stored, the tests that decided the path); a branch is taken when the test is
+    true, or undecided, for the kind the local holds."""
+    cfg = cfg_of(fi)
+    store_ids = set(id(st) for st in stores)
+    states = dict((n.id, set()) for n in cfg.nodes)
+    todo = []
+    for k in (ARG_NONE,) + TIME_ARGS:
+        states[cfg.entry].add((k, k, False, ()))
+    todo.append(cfg.entry)
+    steps = 0
+    while todo:
+        steps += 1
+        if steps > 20000:
+            raise AnalysisError('%s: too many paths to evaluate' % fi.qualname)
+        n = todo.pop()
+        nd = cfg.nodes[n]
+        out = set()
+        for orig, cur, stored, why in states[n]:
+            if nd.kind == 'branch':
+                r = _truth3(cx, nd.test, param, cur)
+                if r is not None and r is not nd.pol:
+                    continue
+                out.add((orig, cur, stored, (why + ((nd.test, nd.pol),))[-4:] if (nd.test, nd.pol) not in why else why))
+            elif nd.kind == 'stmt' and nd.stmt is not None:
+                st = nd.stmt
+                if id(st) in store_ids:
+                    stored = True
+                elif _removes_expiry(cx, st):
+                    stored = False
+                tg = st.targets if isinstance(st, ast.Assign) else [st.target] if isinstance(st, (ast.AugAssign, ast.AnnAssign)) else []
+                for t in tg:
+                    if any(isinstance(x, ast.Name) and x.id == param for x in ast.walk(t)):
+                        cur = _rebound_kind(cx, st, param, cur) if isinstance(st, ast.Assign) and isinstance(t, ast.Name) else ARG_OTHER
+                out.add((orig, cur, stored, why))
+            else:
+                out.add((orig, cur, stored, why))
+        for m in cfg.succ[n]:
+            if (n, m) in cfg.exc_edges:
+                continue
+            new = out - states[m]
+            if new:
+                states[m] |= new
+                todo.append(m)
+    lost = {}
+    for orig, cur, stored, why in states[cfg.exit]:
+        if orig in TIME_ARGS and not stored:
+            lost.setdefault(orig, list(why))
+    return sorted(lost.items())
+
+
+def _rebound_kind(cx, st, param, cur):
+    """Kind of value the local holds after ``param = <value>``."""
+    v = st.value
+    if isinstance(v, ast.Name) and v.id == param:
+        return cur
+    if isinstance(v, ast.BoolOp) and len(v.values) == 2 and isinstance(v.values[0], ast.Name) and v.values[0].id == param:
+        truth = _truth3(cx, v.values[0], param, cur)
+        c = cx.fold(v.values[1])
+        other = _kind_of_const(cx, c) if c is not _NOFOLD else ARG_OTHER
+        if truth is None:
+            return ARG_OTHER
+        return (cur if truth else other) if isinstance(v.op, ast.Or) else (other if truth else cur)
+    c = cx.fold(v)
+    return _kind_of_const(cx, c) if c is not _NOFOLD else ARG_OTHER
+
+
+def _removes_expiry(cx, st):
+    """``self.pop('_expires', ..)`` / ``del self['_expires']`` / ``self.clear()``: the entry is gone again."""
+    if isinstance(st, ast.Delete):
+        return any(isinstance(t, ast.Subscript) and norm(t.value) == 'self' and cx.fold(t.slice) in (EXPIRES, _NOFOLD) for t in st.targets)
+    for c in ast.walk(st):
+        if isinstance(c, ast.Call) and isinstance(c.func, ast.Attribute) and norm(c.func.value) == 'self' and c.func.attr in REMOVERS:
+            if c.func.attr != 'pop' or not c.args or cx.fold(c.args[0]) in (EXPIRES, _NOFOLD):
+                return True
+    return False
 
 
 def _holds_next_result(fl, name, at, nd, depth):
@@ -1283,7 +1721,7 @@ def _constructor_built(cx, fi, src):
     for l in layers:
         if 'key' in l.keys:
             v = l.values.get('key')
-            at = l.node if isinstance(l.node, ast.stmt) else stmt_of(cx.ck, l.node)
+            at = l.node if isinstance(l.node, ast.stmt) else cx.stmt(l.node)
             out.append((_request_time_text(mw, init, v, at) if v is not None and at is not None else None, l.below))
     return out
 
@@ -1347,10 +1785,10 @@ def _is_clock(cx, f):
     if norm(f) in CLOCKS:
         return True
     if isinstance(f, ast.Name):
-        kind, _, obj = cx.repo.resolve(cx.ck, f.id)
+        kind, _, obj = cx.repo.resolve(cx.home(f), f.id)
         return kind == 'external' and obj in CLOCKS
     if isinstance(f, ast.Attribute) and isinstance(f.value, ast.Name):
-        kind, _, obj = cx.repo.resolve(cx.ck, f.value.id)
+        kind, _, obj = cx.repo.resolve(cx.home(f), f.value.id)
         return kind == 'module' and isinstance(obj, str) and '%s.%s' % (obj, f.attr) in CLOCKS
     return False
 
@@ -1404,11 +1842,111 @@ def _stamps(cx, fi, cvar):
     return out
 
 
-def _absent_cond(cx, t, pol, cvar):
-    """``'_expires' not in cookie`` holds / ``'_expires' in cookie`` does not hold (key through module constants)."""
-    if not (isinstance(t, ast.Compare) and len(t.ops) == 1 and norm(t.comparators[0]) in (cvar, cvar + '.keys()') and cx.fold(t.left) == EXPIRES):
+def _absent_cond(cx, fi, fl, t, pol, names):
+    """Does the path condition (t, pol) say that the cookie (held in one of the locals ``names``) has no expiry entry?
+    -> the statements in which the cookie is consulted for it, None when the condition says nothing of the kind.
+      * ``'_expires' not in cookie`` holds / ``'_expires' in cookie`` does not hold (key through module constants);
+      * ``cookie.get('_expires', S) is S`` holds / ``... is not S`` does not hold -- in place, or through a local every
+        definition of which (reaching the test) is that lookup -- where S is a sentinel no cookie can contain: a module-level
+        name bound once, to ``object()``.  (``None`` is not such a value: the application can store it.)"""
+    if not (isinstance(t, ast.Compare) and len(t.ops) == 1):
+        return None
+    op, l, r = t.ops[0], t.left, t.comparators[0]
+    if isinstance(op, (ast.In, ast.NotIn)):
+        if not (any(norm(r) in (n, n + '.keys()') for n in names) and cx.fold(l) == EXPIRES):
+            return None
+        return [cx.stmt(t)] if isinstance(op, ast.NotIn) is pol else None
+    if not isinstance(op, (ast.Is, ast.IsNot)) or isinstance(op, ast.Is) is not pol:
+        return None
+    at = cx.stmt(t)
+    for probe, sent in ((l, r), (r, l)):
+        if not _is_sentinel(cx, fi, fl, sent):
+            continue
+        if isinstance(probe, ast.Name) and probe.id in fl.defs and probe.id not in fi.params():
+            ds = fl.reaching(probe.id, at)
+            if ds and all(d.kind == 'assign' and d.idx is None and _expiry_lookup(cx, d.value, sent, names) for d in ds):
+                return [d.stmt for d in ds]
+        elif _expiry_lookup(cx, probe, sent, names):
+            return [at]
+    return None
+
+
+def _expiry_lookup(cx, e, sent, names):
+    """``cookie.get('_expires', S)`` with the sentinel named by ``sent`` as the default."""
+    if not (isinstance(e, ast.Call) and isinstance(e.func, ast.Attribute) and e.func.attr == 'get' and norm(e.func.value) in names):
         return False
-    return (isinstance(t.ops[0], ast.NotIn) and pol is True) or (isinstance(t.ops[0], ast.In) and pol is False)
+    if any(isinstance(a, ast.Starred) for a in e.args) or any(k.arg is None for k in e.keywords):
+        return False
+    k, d = argn(e, 'key', 0), argn(e, 'default', 1)
+    return k is not None and cx.fold(k) == EXPIRES and isinstance(d, ast.Name) and d.id == sent.id
+
+
+def _is_sentinel(cx, fi, fl, e):
+    """A module-level name bound exactly once, to a new ``object()``, never re-bound by a function (``global``): an object
+    that is in no cookie, so that getting it back from ``.get(key, S)`` means the key is absent."""
+    if not isinstance(e, ast.Name) or e.id in fl.defs or e.id in _all_params(fi.node):
+        return False
+    kind, m, vals = cx.repo.resolve(fi.mod, e.id)
+    if kind != 'value' or m is None or not isinstance(vals, list) or len(vals) != 1:
+        return False
+    v = vals[0]
+    if not (isinstance(v, ast.Call) and isinstance(v.func, ast.Name) and v.func.id == 'object' and not v.args and not v.keywords):
+        return False
+    own = [k for k, x in m.assigns.items() if any(y is v for y in x)]
+    return not any(isinstance(g, ast.Global) and set(own) & set(g.names) for g in ast.walk(m.tree))
+
+
+def _pure_accessor(cx, name):
+    """A method the cookie class defines in the analysed tree that writes nothing to the cookie (no store / delete / mutating call
+    rooted at ``self``) and calls no other method of it."""
+    from ..effects import effects_in
+    m = cx.repo.find_method(cx.ck.cls('JSONCookie'), name)
+    if m is None or m.mod.external or 'self' not in m.params():
+        return False
+    if any(ef.root == 'self' for ef in effects_in(m.node)):
+        return False
+    return not any(isinstance(c, ast.Call) and isinstance(c.func, ast.Attribute) and norm(c.func.value) == 'self' and c.func.attr not in READ_ONLY_METHODS
+                   for c in walk_body(m.node))
+
+
+READ_ONLY_METHODS = ('get', 'keys', 'values', 'items', 'copy', '__contains__', '__getitem__', '__len__', '__iter__')
+
+
+def _changed_since(cx, fi, names, lookup_stmts, stamp, ignore=(), avoid=()):
+    """The first thing on a path from one of ``lookup_stmts`` to the statement ``stamp`` (paths through the statements ``avoid``
+    do not count) that can change the cookie's entries -- a call of next() (the endpoint), a write of the middleware to the cookie
+    (other than the statements ``ignore``), a call the cookie is handed to or a method of it that is not a plain read; None
+    when there is nothing of the kind."""
+    cfg = cfg_of(fi)
+    stamp_nodes = set(cfg.nodes_of(stamp))
+    blocked = set(cfg.nodes_of_all(list(avoid))) - stamp_nodes
+    srcs = [m for st in lookup_stmts for n in cfg.nodes_of(st) for m in cfg.succ[n]]
+    region = (cfg.reach(srcs, avoid=blocked) & cfg.coreach(stamp_nodes, avoid=blocked)) - stamp_nodes
+    writes = set(id(st) for _, st in _cookie_writes(fi, names)) - set(id(st) for st in ignore)
+    for nid in sorted(region):
+        nd = cfg.nodes[nid]
+        if nd.kind not in ('stmt', 'head') or nd.stmt is None:
+            continue
+        st = nd.stmt
+        if nd.kind == 'stmt' and any(st is x for x in ignore):
+            continue
+        if nd.kind == 'stmt' and id(st) in writes:
+            return st
+        hosts = [st] if nd.kind == 'stmt' else [x for x in ([getattr(st, f, None) for f in ('test', 'iter')] +
+                                                             [it.context_expr for it in getattr(st, 'items', [])]) if isinstance(x, ast.AST)]
+        for h in hosts:
+            for c in ast.walk(h):
+                if not isinstance(c, ast.Call):
+                    continue
+                if isinstance(c.func, ast.Name) and c.func.id == 'next':
+                    return c
+                if isinstance(c.func, ast.Attribute) and norm(c.func.value) in names:
+                    if c.func.attr not in READ_ONLY_METHODS and not _pure_accessor(cx, c.func.attr):
+                        return c
+                    continue
+                if any(isinstance(x, ast.Name) and x.id in names for a in list(c.args) + [k.value for k in c.keywords] for x in ast.walk(a)):
+                    return c
+    return None
 
 
 def _markers(cx):
@@ -1576,8 +2114,10 @@ class _Activation(object):
 
     def _callee(self, call):
         from ..effects import callee_of
+        # (a method the class inherits from a mixin / a helper imported from another module of the package is followed like one
+        #  written next to it: where the definition lives does not change what it writes)
         c = callee_of(self.cx.repo, self.fi, call)
-        return c if c is not None and c.mod is self.fi.mod else None
+        return c if c is not None and not c.mod.external else None
 
     def _shared_args(self, callee, call, at):
         """Parameters of ``callee`` that receive an object outliving this activation."""
@@ -1748,7 +2288,7 @@ def rule_g(rep, cx):
     ck, ju, rq = cx.ck, cx.ju, cx.rq
     rep.rule('R16.g', 'one cookie object, unchanged: unserialize returns the verified cookie or an empty one and does not write to it; request() '
                       'provides and saves the object load_cookie returned, stores nothing in it but the expiry stamp after the endpoint, and takes '
-                      'neither the stamp nor the signed expiry from the request')
+                      'neither the stamp nor the signed expiry from the request; the expiry it has save_cookie sign is the cookie\'s own entry')
     # -- JSONCookie.unserialize
     fl = Flow(ju)
     sc = cx.sup_calls[0]
@@ -1772,16 +2312,16 @@ def rule_g(rep, cx):
     fl = Flow(rq)
     cfg = cfg_of(rq)
     lcall = cx.load_calls[0]
-    lst = stmt_of(ck, lcall)
+    lst = cx.stmt(lcall)
     cvar = lst.targets[0].id if isinstance(lst, ast.Assign) and lst.value is lcall and len(lst.targets) == 1 and isinstance(lst.targets[0], ast.Name) else None
     ncalls = [c for c in walk_body(rq.node) if isinstance(c, ast.Call) and isinstance(c.func, ast.Name) and c.func.id == 'next']
     saves = [c for c in walk_body(rq.node) if isinstance(c, ast.Call) and call_tail(c) == 'save_cookie']
     if cvar is None or len(ncalls) != 1 or not saves:
         raise AnalysisError('SignedCookieMiddleware.request: load / next / save_cookie not found in the expected roles')
-    nst = stmt_of(ck, ncalls[0])
+    nst = cx.stmt(ncalls[0])
     names = set(k for k in fl.aliases(cvar) if '.' not in k)
     for what, c in [('provided', ncalls[0])] + [('saved', c) for c in saves]:
-        at = stmt_of(ck, c)
+        at = cx.stmt(c)
         used = [n.id for n in ast.walk(c) if isinstance(n, ast.Name) and n.id in names] or [cvar]
         ds = [d for nm in used for d in fl.reaching(nm, at)]
         # (or, where the middleware itself guards the load: the empty cookie of the configured type, with the middleware's key)
@@ -1810,7 +2350,7 @@ def rule_g(rep, cx):
                       % short(t[0], 50), ck, ef.node)
             n_ok += 1
     for c in saves:
-        at = stmt_of(ck, c)
+        at = cx.stmt(c)
         srcs = []
         for nm, pos in (('expires', 2), ('session_expires', 3)):
             a = argn(c, nm, pos)
@@ -1821,7 +2361,7 @@ def rule_g(rep, cx):
                 continue
             layers = layers_of_var(rq.node, k.value.id) if isinstance(k.value, ast.Name) else layers_of_expr(k.value)
             for l in layers:
-                lat = l.node if isinstance(l.node, ast.stmt) else stmt_of(ck, l.node)
+                lat = l.node if isinstance(l.node, ast.stmt) else cx.stmt(l.node)
                 if l.keys is not None:
                     srcs += [(nm, l.values[nm], lat) for nm in ('expires', 'session_expires') if l.values.get(nm) is not None]
                 else:
@@ -1830,7 +2370,194 @@ def rule_g(rep, cx):
         rep.check('R16.g', fkey(rq, 'signed expiry'), not t, 'the expiry handed to save_cookie (signed into the cookie as _expires) comes from the cookie / the configuration'
                   if not t else 'save_cookie(%s=%s): the expiry the dependency signs into the cookie is taken from the request'
                   % (t[0][0], short(t[0][1], 40)), ck, c)
+        # ... and it is the cookie's own entry: the dependency's serialize(expires) overwrites cookie['_expires'] with whatever it is
+        # given, so anything else replaces an expiry the application set (set_expires(NOW) to end a session) by the middleware's own
+        foreign, kinds = [], []
+        jc = ck.cls('JSONCookie')
+        for nm, e, lat in srcs:
+            if nm == '**' or not isinstance(e, ast.AST) or lat is None:
+                continue
+            for own, kind, node, read_at in _expiry_values(cx, jc, rq, fl, e, lat, names, list(conds(rq, lat)), 0):
+                kinds.append((nm, kind, node))
+                if not own:
+                    foreign.append((nm, node, None))
+                elif read_at is not None:
+                    # the entry as it is when the cookie is saved: read after the endpoint ran (the stamp only fills an entry that is absent)
+                    others = [d.stmt for d in fl.defs.get(e.id, []) if d.stmt is not None and d.stmt is not read_at] if isinstance(e, ast.Name) else []
+                    ch = _changed_since(cx, rq, names, [read_at], at, ignore=stamps, avoid=others)
+                    if ch is not None:
+                        foreign.append((nm, node, ch))
+        rep.check('R16.g', fkey(rq, 'signed expiry is the cookie\'s own'), not foreign,
+                  'what save_cookie is told to sign as the expiry is the _expires entry the cookie holds (stamped or set by the application), or nothing'
+                  if not foreign else
+                  'save_cookie(%s=%s): the dependency stores this into cookie[\'_expires\'] before signing, whatever the entry holds%s -- an expiry the '
+                  'application set in the endpoint (set_expires(NOW) to invalidate the cookie) is replaced and the data stays valid'
+                  % (foreign[0][0], short(foreign[0][1], 40), '' if foreign[0][2] is None else
+                     ', and the entry was read before %s ran' % short(foreign[0][2], 40)), ck, c)
+        # ... in a kind of time value the dependency reads as the instant that was meant: an epoch number is zone-free, an aware
+        # datetime says its zone, a naive datetime is read in ONE of two ways by the code that converts it -- which one is a fact of
+        # the pinned dependency (_date_to_unix), read from its source
+        naive_is = _naive_reading(cx)
+        undecided = [(nm, n) for nm, k, n in kinds if k == T_UNKNOWN]
+        if undecided and not foreign:
+            raise AnalysisError('SignedCookieMiddleware.request: what kind of time value save_cookie gets as %s (%s) is not followed'
+                                % (undecided[0][0], short(undecided[0][1], 50)))
+        wrong = [(nm, k, n) for nm, k, n in kinds if k in (T_NAIVE_LOCAL, T_NAIVE_UTC, T_MISREAD) and k != naive_is]
+        rep.check('R16.g', fkey(rq, 'signed expiry: kind of time value'), not wrong,
+                  'the expiry handed to the dependency is %s' % (' / '.join(sorted(set(k for _, k, _ in kinds))) or 'nothing') if not wrong else
+                  'save_cookie(%s=..) is given %s, which is %s; %s stores the result into '
+                  'cookie[\'_expires\'] before signing: the signed expiry is off by the server\'s UTC offset -- east of UTC the data is still presented '
+                  'hours after it expired (and an application\'s set_expires(t) is shifted the same way)'
+                  % (wrong[0][0], short(wrong[0][2], 50), wrong[0][1],
+                     'the dependency converts it back (_date_to_unix) and' if wrong[0][1] == T_MISREAD else
+                     'the dependency reads a naive datetime as %s (_date_to_unix) and' % ('UTC wall-clock time' if naive_is == T_NAIVE_UTC else 'local wall-clock time')),
+                  cx.home(wrong[0][2]) if wrong else ck, wrong[0][2] if wrong else c)
     rep.floor('R16.g', 4)
+
+
+def _expiry_read(cx, x, names):
+    """``cookie['_expires']`` / ``cookie.get('_expires', ..)``."""
+    if isinstance(x, ast.Subscript):
+        return norm(x.value) in names and cx.fold(x.slice) == EXPIRES
+    return isinstance(x, ast.Call) and isinstance(x.func, ast.Attribute) and x.func.attr == 'get' and norm(x.func.value) in names and \
+        bool(x.args) and cx.fold(x.args[0]) == EXPIRES
+
+
+# Kinds of time value (a finite domain: which *kind* an expression denotes, never which instant)
+T_NONE, T_EPOCH, T_AWARE, T_NAIVE_UTC, T_NAIVE_LOCAL, T_MISREAD, T_UNKNOWN = (
+    'nothing', 'seconds since the epoch', 'an aware datetime', 'a naive datetime holding UTC wall-clock time',
+    'a naive datetime holding the server\'s local wall-clock time', 'a datetime converted as if it held the other zone\'s wall-clock time', 'unknown')
+DT = 'datetime.datetime.'
+
+
+def _naive_reading(cx):
+    """How the pinned dependency reads a naive datetime handed to serialize(): ``utctimetuple()`` -> as UTC, ``timetuple()`` +
+    ``mktime`` -> as local time.  Read from the source of the function serialize() converts its argument with."""
+    ser = cx.dep.func('SecureCookie.serialize')
+    convs = [c for c in walk_body(ser.node) if isinstance(c, ast.Call) and isinstance(c.func, ast.Name) and
+             any(isinstance(x, ast.Name) and x.id in ser.params() for a in c.args for x in ast.walk(a))]
+    for c in convs:
+        kind, m, fn = cx.repo.resolve(cx.dep, c.func.id)
+        if kind != 'func':
+            continue
+        tails = set(call_tail(x) for x in walk_body(fn.node) if isinstance(x, ast.Call))
+        if 'utctimetuple' in tails and not tails & {'mktime', 'timetuple'}:
+            return T_NAIVE_UTC
+        if tails & {'mktime'} and 'utctimetuple' not in tails:
+            return T_NAIVE_LOCAL
+    raise AnalysisError('secure_cookie serialize(): how a datetime expiry is converted is not recognised (model out of date)')
+
+
+def _libname(fi, e):
+    """Dotted name of the library object an expression denotes (through imports / ``as`` / aliases); None otherwise."""
+    from .c14 import _qual, _Ctx as _C14Ctx
+    try:
+        return _qual(_C14Ctx(fi.mod, fi), e)
+    except AnalysisError:
+        raise
+    except Exception:
+        return None
+
+
+def _is_utc_zone(fi, e):
+    from .c14 import _UTC_TZ_NAMES, _UTC_TZ_CALLS
+    return _libname(fi, e) in _UTC_TZ_NAMES or (isinstance(e, ast.Call) and not e.args and _libname(fi, e.func) in _UTC_TZ_CALLS)
+
+
+def _expiry_values(cx, jc, fi, fl, e, at, names, cs, depth):
+    """Abstract values of an expression handed to the dependency as the expiry to sign: [(own, kind, node, read_at)] --
+    ``own``: it is the cookie's own expiry entry (a lookup of it, a conversion of one, what an accessor method of the cookie class
+    returns for it, the value a chained assignment stores into the entry, a false constant) or the path conditions say the cookie
+    has no entry; ``kind``: one of the T_* kinds; ``read_at``: the statement of this function in which the entry was read."""
+    if depth > 6:
+        raise AnalysisError('%s: the expiry value %s is too deep to follow' % (fi.qualname, short(e, 40)))
+    out = []
+    for lf in fl.leaves(e, at, list(cs)):
+        if lf.opaque and not isinstance(lf.value, (ast.Subscript, ast.Call, ast.Constant)):
+            raise AnalysisError('%s: the value handed on as the expiry (%s) is not followed' % (fi.qualname, short(lf.value, 40)))
+        out += _expiry_value(cx, jc, fi, fl, e, lf.value, lf, names, depth)
+    return out
+
+
+def _expiry_value(cx, jc, fi, fl, use, v, lf, names, depth):
+    absent = any(_absent_cond(cx, fi, fl, t, p, names) is not None for t, p in lf.conds)
+    sub = lambda x: [r for y in [x] for r in _expiry_value(cx, jc, fi, fl, use, y, lf, names, depth + 1)] if not isinstance(x, ast.Name) else \
+        _expiry_values(cx, jc, fi, fl, x, lf.stmt, names, lf.conds, depth + 1)
+    if depth > 8:
+        raise AnalysisError('%s: the expiry value %s is too deep to follow' % (fi.qualname, short(v, 40)))
+    if isinstance(v, ast.BoolOp):
+        return [r for x in v.values for r in sub(x)]
+    if isinstance(v, ast.Constant):
+        if not v.value:
+            return [(True, T_NONE, v, None)]
+        return [(absent, T_EPOCH if isinstance(v.value, (int, float)) else T_UNKNOWN, v, None)]
+    if isinstance(v, ast.Subscript) and norm(v.value) in names and cx.fold(v.slice) == EXPIRES:
+        return [(True, T_EPOCH, v, lf.stmt)]
+    st = lf.stmt
+    if isinstance(st, ast.Assign) and st.value is v and any(isinstance(t, ast.Subscript) and norm(t.value) in names and cx.fold(t.slice) == EXPIRES
+                                                            for t in st.targets):
+        return [(True, T_EPOCH, v, None)]
+    if isinstance(v, ast.Call) and not any(isinstance(a, ast.Starred) for a in v.args) and not any(k.arg is None for k in v.keywords):
+        f = v.func
+        if isinstance(f, ast.Attribute) and f.attr == 'get' and norm(f.value) in names:
+            k, d = argn(v, 'key', 0), argn(v, 'default', 1)
+            if k is not None and cx.fold(k) == EXPIRES:
+                own = d is None or (isinstance(d, ast.Constant) and not d.value)
+                if not own and _is_sentinel(cx, fi, fl, d):
+                    for t, p in lf.conds:
+                        if isinstance(t, ast.Compare) and len(t.ops) == 1 and isinstance(t.ops[0], (ast.Is, ast.IsNot)) and isinstance(t.ops[0], ast.IsNot) is p:
+                            sides = [t.left, t.comparators[0]]
+                            if any(isinstance(x, ast.Name) and x.id == d.id for x in sides) and any(norm(x) in (norm(use), norm(v)) for x in sides):
+                                own = True
+                return [(own or absent, T_EPOCH, v, lf.stmt)]
+        q = _libname(fi, f)
+        if q in ('int', 'float', 'round') and len(v.args) == 1 and not v.keywords:
+            return [(o, k if k in (T_EPOCH, T_NONE) else T_UNKNOWN, v, r) for o, k, _, r in sub(v.args[0])]
+        if q == DT + 'utcfromtimestamp' and len(v.args) == 1 and not v.keywords:
+            return [(o, T_NAIVE_UTC if k == T_EPOCH else T_UNKNOWN, v, r) for o, k, _, r in sub(v.args[0])]
+        if q == DT + 'fromtimestamp' and v.args:
+            tz = argn(v, 'tz', 1)
+            zoned = tz is not None and not (isinstance(tz, ast.Constant) and tz.value is None)
+            return [(o, (T_AWARE if zoned else T_NAIVE_LOCAL) if k == T_EPOCH else T_UNKNOWN, v, r) for o, k, _, r in sub(v.args[0])]
+        if q in (DT + 'now', DT + 'today', DT + 'utcnow'):
+            tz = argn(v, 'tz', 0) if q == DT + 'now' else None
+            zoned = tz is not None and not (isinstance(tz, ast.Constant) and tz.value is None)
+            return [(absent, T_AWARE if zoned else T_NAIVE_UTC if q == DT + 'utcnow' else T_NAIVE_LOCAL, v, None)]
+        if q in ('time.time',) and not v.args:
+            return [(absent, T_EPOCH, v, None)]
+        if isinstance(f, ast.Attribute) and f.attr == 'replace' and [k.arg for k in v.keywords] == ['tzinfo'] and not v.args:
+            utc = _is_utc_zone(fi, v.keywords[0].value)
+            return [(o, T_AWARE if k == T_NAIVE_UTC and utc else T_MISREAD if k in (T_NAIVE_LOCAL, T_NAIVE_UTC) else k if k == T_NONE else T_UNKNOWN, v, r)
+                    for o, k, _, r in sub(f.value)]
+        if isinstance(f, ast.Attribute) and f.attr == 'astimezone':
+            # (a naive datetime is taken to hold local time by astimezone())
+            return [(o, T_AWARE if k in (T_NAIVE_LOCAL, T_AWARE) else T_MISREAD if k == T_NAIVE_UTC else T_UNKNOWN, v, r) for o, k, _, r in sub(f.value)]
+        if isinstance(f, ast.Attribute) and norm(f.value) in names and not v.args and not v.keywords:
+            callee = cx.repo.find_method(jc, f.attr)
+            if callee is not None and not callee.mod.external and callee.params() == ['self'] and not callee.node.decorator_list:
+                # an accessor of the cookie class: what it returns, with ``self`` the cookie
+                from ..effects import Flow
+                cfl = Flow(callee)
+                ccfg = cfg_of(callee)
+                rets = returns_of(callee)
+                res = []
+                for r in rets:
+                    if r.value is None:
+                        res.append((True, T_NONE, r, None))
+                    else:
+                        res += _expiry_values(cx, jc, callee, cfl, r.value, r, {'self'}, list(conds(callee, r)), depth + 1)
+                if not rets or ccfg.exit in ccfg.reach([ccfg.entry], avoid=set(ccfg.nodes_of_all(rets)), normal_only=True):
+                    res.append((True, T_NONE, callee.node, None))
+                # the cookie is consulted where the accessor is called
+                return [(o or absent, k, n, lf.stmt if (r is not None or o) and k != T_NONE else None) for o, k, n, r in res]
+    if isinstance(v, ast.BinOp) and isinstance(v.op, (ast.Add, ast.Sub)):
+        parts = sub(v.left) + sub(v.right)
+        ks = set(k for _, k, _, _ in parts)
+        return [(absent, T_EPOCH if ks <= {T_EPOCH} else T_UNKNOWN, v, None)]
+    if isinstance(v, (ast.Attribute, ast.Name)):
+        # configuration (self.expiry) / an argument: a number of seconds as far as its kind goes
+        return [(absent, T_EPOCH, v, None)]
+    return [(absent, T_UNKNOWN, v, None)]
 
 
 # ---------------------------------------------------------------------------------------------- R16.h
